@@ -16,7 +16,7 @@ fn gen_app(rng: &mut Rng, ids: &mut IdGen, depth: usize, params_left: usize, tak
     let id = ids.app();
     // one application in eight is *wide*: 10-18 items at the top level, all answering GET, so that one node of one method tree gets more
     // children than any small-node special case covers (linear scan vs. bisection, inline vs. heap storage), among them compressed chains
-    let wide = depth == 0 && rng.chance(1, 8);
+    let wide = depth == 0 && rng.chance(1, 8) && !crate::reqref::SMALL.load(std::sync::atomic::Ordering::Relaxed);
     let n_items = if wide { rng.range(10, 18) } else { rng.range(1, if depth == 0 { 7 } else { 4 }) };
     let mut items: Vec<ItemDesc> = vec![];
     // patterns used so far in this app (relative): (pattern, is_mount)
@@ -359,6 +359,7 @@ fn shape_hash(routes: &[FlatRoute]) -> u64 {
 
 pub fn run(args: &Args, rep: &mut Report) {
     let small = args.flag("small").is_some();
+    crate::reqref::SMALL.store(small, std::sync::atomic::Ordering::Relaxed);
     if args.shard == 0 && args.start == 0 {
         witnesses(args, rep);
     }
